@@ -391,7 +391,7 @@ var mutators = []struct {
 	weight int
 }{
 	{mFlip, 2}, {mTruncate, 2}, {mKeyValue, 8}, {mRewire, 5}, {mDupChunk, 1}, {mDelChunk, 2},
-	{mSplice, 2}, {mTokenSwap, 2}, {mStreamDamage, 6}, {mXRef, 3}, {mObjStmIndirect, 4}, {mFontProgram, 3}, {mImageParams, 3}, {mPipeFilter, 4},
+	{mSplice, 2}, {mTokenSwap, 2}, {mStreamDamage, 6}, {mXRef, 3}, {mObjStmIndirect, 4}, {mFontProgram, 3}, {mImageParams, 3}, {mPipeFilter, 4}, {mInlineImage, 2}, {mShareRef, 2},
 }
 
 func mutate(R *rand.Rand, d []byte, other []byte) (res []byte, label string) {
@@ -487,4 +487,35 @@ func repairXRef(d []byte) []byte {
 	}
 	fmt.Fprintf(buf, " >>\nstartxref\n%d\n%%%%EOF\n", x-hdr)
 	return buf.Bytes()
+}
+
+var shareKeys = []string{"/SMask", "/TR", "/TR2", "/BG", "/BG2", "/UCR", "/UCR2", "/HT", "/Font", "/ColorSpace", "/Function",
+	"/Encoding", "/ToUnicode", "/Group", "/Metadata", "/Resources", "/Mask", "/Decode", "/OC", "/Alternate", "/CS", "/G"}
+
+// mShareRef makes the value of a key the SAME indirect object everywhere it
+// occurs; the object's value is one that typed decoders turn into nil or a
+// default (the second decode of such a reference is answered by the cache).
+func mShareRef(R *rand.Rand, d, _ []byte) ([]byte, string) {
+	key := shareKeys[R.IntN(len(shareKeys))]
+	locs := allIndex(d, key+" ")
+	if len(locs) == 0 {
+		return mRewire(R, d, nil)
+	}
+	num := 7000 + R.IntN(50)
+	val := []string{"/None", "null", "/Default", "/Identity", "<< >>", "[ ]", "/DeviceGray", "0"}[R.IntN(8)]
+	out := bytes.Clone(d)
+	// from the back, so that earlier offsets stay valid
+	for i := len(locs) - 1; i >= 0; i-- {
+		j := locs[i] + len(key)
+		out = splice(out, j, skipValue(out, j), []byte(fmt.Sprintf(" %d 0 R", num)))
+	}
+	if len(locs) == 1 {
+		// use it twice: duplicate the entry under a second name in the same dictionary
+		j := locs[0]
+		out = splice(out, j, 0, []byte(fmt.Sprintf("/Verif%s %d 0 R ", key[1:], num)))
+	}
+	if R.IntN(4) > 0 {
+		out = append(out, []byte(fmt.Sprintf("\n%d 0 obj\n%s\nendobj\n", num, val))...)
+	} // else: a missing object
+	return repairXRef(out), "share:" + key
 }
